@@ -86,6 +86,19 @@ def r19_3(ctx):
     pushes = [(bb, t) for bb, t in f.calls() if bb in excl("UnmatchedExpectation") and mname(t) == "String::push_str"]
     ctx.check(len(pushes) >= 1, "pretty:unmatched-emitted", f.loc(sb), "the UnmatchedExpectation arm writes to the output",
               "the pretty renderer's UnmatchedExpectation arm writes nothing: missing expectations are not shown")
+    # ... on every path through the arm (no guard that silently drops some unmatched expectations)
+    from .c20 import _segment_events
+    ev = {bb: {"w": 1} for bb, t in pushes}
+    if ev:
+        keys, outs = _segment_events(f, ve["UnmatchedExpectation"], set(), ev)
+        cnts = {cnt[0] for how, cnt in outs if how == "stop"}
+        ctx.check(cnts and 0 not in cnts, "pretty:unmatched-on-every-path", f.loc(sb), "every UnmatchedExpectation record is written (no path through the arm skips the write)",
+                  "some path through the UnmatchedExpectation arm writes nothing (writes per path: %s): certain unmatched expectations are silently not shown" % sorted(cnts))
+    fe_all = [bb for bb, t in f.calls() if bb in excl("UnexpectedLines") and mname(t) in ("Iterator::for_each",)]
+    if fe_all:
+        keys, outs = _segment_events(f, ve["UnexpectedLines"], set(), {bb: {"w": 1} for bb in fe_all})
+        cnts = {cnt[0] for how, cnt in outs if how == "stop"}
+        ctx.check(cnts and 0 not in cnts, "pretty:unexpected-on-every-path", f.loc(sb), "every UnexpectedLines record is iterated and written")
     for bb, t in pushes:
         tree = o.operand(t["args"][1])
         ctx.check(tree.has_call("Expectation::to_expression_string", "Expectation::original_string") and any(n.kind == "field" and n.a == "expectation" for n in tree.walk()),
